@@ -801,3 +801,54 @@ def r3i(ctx: Ctx) -> list[Ob]:
                     else:
                         out.append(ok("R3i", m.qualname, f"optional:{unparse(q)[:30]}", "an explicit test (None-ness / comparison)", site, nontrivial=False))
     return out
+
+
+# ------------------------------------------------------------------------------------------ R3j
+def r3j(ctx: Ctx) -> list[Ob]:
+    """R3j -- the fold-group key is hashable.
+
+    ``group_foldable_modules`` uses ``(type, *fold_settings)`` as a dictionary key and
+    ``fold_settings`` of layers and parameter nodes contains ``config.items()``: every value a
+    torch-side ``config`` returns must be hashable.  A list (a ``[..]`` display, a comprehension,
+    ``list(..)``, ``Tensor.tolist()`` -- directly or through a property of the class) makes every
+    compilation with fold=True of a circuit that contains the module raise ``TypeError: unhashable``."""
+    out: list[Ob] = []
+
+    def unhashable(c: ClassInfo, e: ast.AST, depth: int = 0) -> str | None:
+        if isinstance(e, (ast.List, ast.ListComp, ast.Dict, ast.DictComp, ast.Set, ast.SetComp)):
+            return f"a {type(e).__name__} display"
+        if isinstance(e, ast.Call):
+            f = dotted(e.func) or ""
+            if f in ("list", "dict", "set") or f.endswith(".tolist") or (isinstance(e.func, ast.Attribute) and e.func.attr == "tolist"):
+                return f"{f or '.tolist'}(..)"
+            if f in ("tuple", "frozenset", "int", "float", "str", "bool", "len"):
+                return None
+        a = is_self_attr(e)
+        if a and depth < 2:
+            m = ctx.repo.lookup(c, a)
+            if m is not None and m.is_property:
+                for r in walk_no_nested(m.node):
+                    if isinstance(r, ast.Return) and r.value is not None:
+                        u = unhashable(c, r.value, depth + 1)
+                        if u:
+                            return f"property {a} -> {u}"
+        return None
+
+    for c in ctx.repo.classes.values():
+        if not c.module.name.startswith("cirkit.backend.torch"):
+            continue
+        if "config" not in c.methods:
+            continue
+        try:
+            dv = ctx.cf.dict_property(c, "config")
+        except Exception:
+            continue
+        for k, item in dv.items.items():
+            v = item[0] if isinstance(item, tuple) else item
+            u = unhashable(c, v)
+            site = c.methods["config"].loc
+            if u:
+                out.append(viol("R3j", c.qualname, f"hashable:config[{k}]", f"config['{k}'] is {u}: fold_settings (= config.items()) is used as a dictionary key by the folder, so compiling any circuit that contains a {c.name} with fold=True raises TypeError (unhashable)", site))
+            else:
+                out.append(ok("R3j", c.qualname, f"hashable:config[{k}]", "hashable", site, nontrivial=False))
+    return out
